@@ -270,6 +270,7 @@ func runRouter(rec *sim.Recorder, r Run) {
 		poll = 50 * time.Microsecond
 	}
 	w.Sock = sim.NewMemSock(rec, false, poll)
+	w.Sock.Linger = time.Duration(r.Cfg.Linger) * time.Microsecond // a frame in flight at Close may still be handed over (set by the history family)
 	rc := knx.RouterConfig{RetainCount: uint(r.Cfg.Retain), PostSendPauseDuration: time.Duration(r.Cfg.Pause) * time.Microsecond}
 	if r.Cfg.Group {
 		gr := knx.NewGroupRouterOnSocket(w.Sock, rc)
